@@ -218,3 +218,35 @@ Theorem only_configured_word_recognised w w' c :
 Proof.
   intros Hne Hfw. apply parse_dir_none_iff. right. congruence.
 Qed.
+
+(* the sort key, spelled out *)
+Lemma diag_leb_iff a b :
+  diag_leb a b = true <->
+  (opt_cmp (start_of a) (start_of b) = Lt \/
+   (opt_cmp (start_of a) (start_of b) = Eq /\ str_leb (d_code a) (d_code b) = true)).
+Proof.
+  unfold diag_leb. destruct (opt_cmp (start_of a) (start_of b)) eqn:E.
+  - split; [intros H; right; auto | intros [H|[_ H]]; [discriminate | exact H]].
+  - split; [intros _; left; reflexivity | reflexivity].
+  - split; [discriminate | intros [H|[H _]]; discriminate].
+Qed.
+
+(* C16: a whole-file (range-less) diagnostic is kept unless the file-level directive names its code *)
+Theorem rangeless_kept o orc f rd ext :
+  ignore_all (find_file_dir (file_word o) (f_leading f)) = false ->
+  forall d, In d (rd ++ ext_diags ext) -> d_range d = None ->
+  file_has (find_file_dir (file_word o) (f_leading f)) (d_code d) = false ->
+  In d (lint_inner o orc f rd ext).
+Proof.
+  intros H d Hin Hr Hf. apply survivor_kept; try assumption.
+  rewrite rangeless_only_file by assumption. exact Hf.
+Qed.
+
+Theorem configured_word_recognised w c :
+  c_line c = true -> first_word (trim (c_text c)) = Some w -> exists d, parse_dir w c = Some d.
+Proof. intros H1 H2. apply is_directive_iff. auto. Qed.
+
+Theorem custom_bare_file_directive_silences w lw r a orc f rd ext d :
+  find_file_dir w (f_leading f) = Some d -> dir_codes d = [] ->
+  lint_inner (mkOpts (Some w) lw r a) orc f rd ext = [].
+Proof. intros. eapply ignore_all_silences; eassumption. Qed.
